@@ -521,6 +521,11 @@ func runC19Multi(c c19MultiCase) (bool, error) {
 	if diff := back.Diff(datum, "record"); diff != "" {
 		return nt, fmt.Errorf("decoded and written again, the record differs: %s", diff)
 	}
+	if len(c.Cols) > 0 && len(c.Cols[0].Stored) > 0 {
+		if err := c19Embedded(c19BaseOf(c.Cols[0]), c.Cols[0].Stored[0]); err != nil {
+			return nt, err
+		}
+	}
 	// the same through a file: the schema as the library serialises it goes into the
 	// header, the record into a block; an independent reader and the library's own
 	// ReadFile must both find the stored integers under that header
@@ -573,6 +578,58 @@ func runC19Multi(c c19MultiCase) (bool, error) {
 		return nt, fmt.Errorf("ReadFile delivered %d records, 1 written", n)
 	}
 	return nt, nil
+}
+
+// A struct that embeds time.Time (first, and after another field): the column is
+// named after the type.
+type c19EmbedFirst struct {
+	time.Time
+	N int64 `json:"n"`
+}
+
+type c19EmbedMid struct {
+	N int64 `json:"n"`
+	time.Time
+	M int64 `json:"m"`
+}
+
+func c19Embedded(base ref.Schema, stored int64) error {
+	rec := ref.Schema{Kind: "record", Name: "e", Fields: []ref.Field{{Name: "n", Type: ref.Prim("long")}, {Name: "Time", Type: base}, {Name: "m", Type: ref.Prim("long")}}}
+	lib, err := avro.SchemaFromString(ref.Render(rec, nil))
+	if err != nil {
+		return fmt.Errorf("SchemaFromString: %v", err)
+	}
+	body, err := ref.Encode(rec, ref.Datum{K: "record", Fields: []ref.Datum{ref.Long(7), {K: base.Kind, I: stored}, ref.Long(9)}}, nil)
+	if err != nil {
+		return fmt.Errorf("VERIF-INCONCLUSIVE harness: %v", err)
+	}
+	var a c19EmbedFirst
+	var b c19EmbedMid
+	for _, tgt := range []struct {
+		v    interface{}
+		p    unsafe.Pointer
+		time *time.Time
+		n    *int64
+	}{{a, unsafe.Pointer(&a), &a.Time, &a.N}, {b, unsafe.Pointer(&b), &b.Time, &b.N}} {
+		codec, err := lib.Codec(tgt.v)
+		if err != nil {
+			return fmt.Errorf("Schema.Codec for a struct embedding time.Time: %v", err)
+		}
+		rb := avro.NewReadBuf(body)
+		if err := codec.Read(rb, tgt.p); err != nil || rb.Len() != 0 {
+			return fmt.Errorf("reading into a struct embedding time.Time: err=%v, %d bytes left", err, rb.Len())
+		}
+		if *tgt.n != 7 {
+			return fmt.Errorf("struct embedding time.Time: n decoded as %d, want 7", *tgt.n)
+		}
+		if err := agreeTimeInt(base, ref.Datum{K: base.Kind, I: stored}, *tgt.time, dirRead, fmt.Sprintf("embedded time.Time (%T)", tgt.v)); err != nil {
+			return err
+		}
+	}
+	if b.M != 9 {
+		return fmt.Errorf("struct embedding time.Time in the middle: m decoded as %d, want 9", b.M)
+	}
+	return nil
 }
 
 func drawC19Multi(t *rapid.T) c19MultiCase {
